@@ -52,7 +52,7 @@ pub fn scenario(family: &str, seed: u64) -> Scenario {
         l.max_mtu = pick(rng, &[1300u16, 1350, 1500, 4000, 9000]);
         l.max_ack_delay_ms = pick(rng, &[25u64, 25, 5, 60, 200]);
     }
-    let mut sc = Scenario { seed, family: family.into(), c, s, net: net.clone(), streams: vec![], close: "c".into(), close_at_us: 0, linger_us: 300_000, deadline_us: 120_000_000, rebinds: vec![], cid_lifetime_s: 0, violation: None, retry: false, dup_cid_frames: false, rebind_toggle: false };
+    let mut sc = Scenario { seed, family: family.into(), c, s, net: net.clone(), streams: vec![], close: "c".into(), close_at_us: 0, linger_us: 300_000, deadline_us: 120_000_000, rebinds: vec![], cid_lifetime_s: 0, violation: None, retry: false, dup_cid_frames: false, rebind_toggle: false, spoof_probe: false };
     match family {
         // clean network, default windows: the happy path
         "clean" => {
@@ -227,6 +227,15 @@ pub fn scenario(family: &str, seed: u64) -> Scenario {
                 let from = pick(rng, &[1_000u64, 30_000, 120_000]);
                 net.blackhole.push(("c2s".into(), from, from + pick(rng, &[2_000_000u64, 6_000_000])));
             }
+            if rng.random_bool(0.25) {
+                // nothing the server sends arrives; the client's Initial and its first probes do, then silence: the server
+                // runs into its amplification limit with a full congestion window and finally gives the handshake up
+                net.blackhole.clear();
+                net.schedule.clear();
+                net.blackhole.push(("s2c".into(), 0, u64::MAX / 4));
+                net.blackhole.push(("c2s".into(), pick(rng, &[1_200_000u64, 3_500_000, 8_000_000]), u64::MAX / 4));
+                sc.linger_us = 25_000_000;
+            }
             net.inject = pick(rng, &[0u32, 10, 30]);
             net.inject_from_us = 0;
             net.inject_to_us = 2_000_000;
@@ -319,6 +328,28 @@ pub fn scenario(family: &str, seed: u64) -> Scenario {
                 t += pick(rng, &[400_000u64, 1_500_000, 4_000_000]);
             }
             sc.deadline_us = 300_000_000;
+        }
+        // address changes and the anti-amplification limit of the NEW address: a real rebind followed by a server-side close
+        // before anything else arrives from there, and a single datagram that appears to come from somewhere else
+        "rebind_close" => {
+            net.delay_us = pick(rng, &[5_000u64, 20_000]);
+            net.jitter_us = 0;
+            let n = rng.random_range(3..8);
+            sc.streams = (0..n).map(|k| StreamSpec { opener: "c".into(), bidi: true, send: 40, reply: 40, chunk: 40, reply_chunk: 40, finish: true,
+                                                    start_us: 200_000 + k as u64 * 100_000, ..Default::default() }).collect();
+            if rng.random_bool(0.5) {
+                let t = 200_000 + rng.random_range(1..n as u64) * 100_000 - 2_000;
+                sc.rebinds.push((t, rng.random_bool(0.5)));
+                sc.close = "s".into();
+                // the small request sent right after the rebind arrives one delay later; the server closes around then
+                sc.close_at_us = t + 2_000 + net.delay_us + pick(rng, &[0u64, 2_000, 10_000]);
+            } else {
+                net.spoof_after_us = 250_000 + rng.random_range(0..300_000u64);
+                sc.spoof_probe = rng.random_bool(0.6);
+                if rng.random_bool(0.5) { sc.close = "s".into(); sc.close_at_us = net.spoof_after_us + net.delay_us + pick(rng, &[5_000u64, 400_000, 1_500_000]); }
+            }
+            sc.linger_us = 3_000_000;
+            sc.deadline_us = 60_000_000;
         }
         // the network dies for good at some point of the handshake or transfer: both applications must learn it
         "blackhole" => {
